@@ -140,6 +140,10 @@ pub fn case(ctx: &Ctx, kind: &str, params: &Value, counting: bool) -> Result<(),
 			let (m, comp, hash, class) = forced_model(params["i"].as_u64().unwrap_or(0) as usize);
 			check(ctx, &m, comp, hash, Some(class), counting)
 		}
+		"large" => {
+			let i = params["i"].as_u64().unwrap_or(0) as usize;
+			check(ctx, &large_model(i), Comp::ALL[i % 3], i % 2 == 0, None, counting)
+		}
 		"fixture" => {
 			let dna = dna_param(params);
 			match fixture_model(&dna) {
@@ -195,6 +199,11 @@ pub fn run(ctx: &Ctx) -> usize {
 	.is_some()
 	{
 		violations += 1;
+	}
+	if violations == 0 {
+		if run_enum(ctx, "large", LARGE_CASES, |i| json!({ "i": i }), |i| check(ctx, &large_model(i), Comp::ALL[i % 3], i % 2 == 0, None, true)).is_some() {
+			violations += 1;
+		}
 	}
 	if fixture_count() > 0 && violations == 0 {
 		if run_dna(ctx, "fixture", ctx.n(1_500, 60_000), 512, |dna, counting| match fixture_model(dna) {
